@@ -966,7 +966,7 @@ def handmade_cases():
 
 
 def plan(tier, seed):
-    n = 10_000 if tier == "quick" else 200_000
+    n = 10_000 if tier == "quick" else 150_000
     shards = [dict(kind="fixed")]
     for s, c in harness.split_range(n, 15 if tier == "quick" else 46):
         shards.append(dict(kind="gen", seed=seed, start=s, count=c))
